@@ -1134,8 +1134,10 @@ impl<T: Transport, Env: UtpEnvironment> VirtualSocket<T, Env> {
 
             (Established, ST_FIN) => {
                 trace!("state: established -> last-ack");
-                let our_fin = self.seq_nr;
-                self.seq_nr += 1;
+                // Segments that are already queued keep their sequence numbers and are still
+                // sent, so our FIN takes the number after the last of them.
+                let our_fin = self.user_tx_segments.next_seq_nr();
+                self.seq_nr = our_fin + 1;
                 self.state = LastAck {
                     our_fin,
                     remote_fin: hdr.seq_nr,
